@@ -404,6 +404,25 @@ fn check_sk(c: &SkC8, ctx: &mut CaseCtx) -> Result<(), Failure> {
             }
         }
     }
+    // as_committer_key(d): the ordinary key derived from the stream is the published key's first d powers
+    {
+        let klen = g.len();
+        use rand_core::RngCore;
+        let mut gd = rng(c.seed ^ 0xa5c);
+        let d = if c.extra % 3 == 0 { klen } else { 1 + (gd.next_u64() as usize) % klen };
+        if let Out::Ok(dk) = guard_plain(|| sck.as_committer_key(d)) {
+            let m = p.len().min(d);
+            let want = naive_sum(&g[..d], &p[..m]).map_err(|e| Failure { sig: sig(P, "skzg", "key", "too_short"), msg: e })?.into_affine();
+            ctx.label_if(d < klen, "derived_key_shorter_than_the_stream");
+            if let Out::Ok(got) = guard_plain(|| dk.commit(&p[..m])) {
+                ctx.check(format!("{:?}", got) == format!("Commitment({:?})", want), sig(P, "skzg", "as_committer_key", "not_the_published_powers"), || {
+                    format!("as_committer_key({d}) of a stream of {klen} powers commits to something else than the sum over the first {d} published powers")
+                })?;
+            }
+        } else {
+            return ctx.fail(sig(P, "skzg", "as_committer_key", "refused"), format!("as_committer_key({d}) of a stream of {klen} powers aborted"));
+        }
+    }
     // a folded stream (the polynomial folded `depth` times with challenges) commits to the naive sum over
     // the published powers of the folded coefficients - for every length, multiple of 2^depth or not
     let depth = (c.extra as usize / 4) % 4;
